@@ -1050,7 +1050,8 @@ def valid_piece(cfg, tracks):
     sigs = {}
     for m in [m for a, _ in info for m in a]:
         if m[0] == "TIME_SIGNATURE":
-            if m[2] in sigs or (8 * m[8]) % m[9] or not (2 <= 8 * m[8] // m[9] <= 16) or (96 * m[8] // m[9]) % u or m[9] not in (1, 2, 4, 8, 16):
+            tlo, thi = (cfg[12] if len(cfg) > 12 else (2, 16))
+            if m[2] in sigs or (8 * m[8]) % m[9] or not (tlo <= 8 * m[8] // m[9] <= thi) or (96 * m[8] // m[9]) % u or m[9] not in (1, 2, 4, 8, 16):
                 return None
             sigs[m[2]] = (m[8], m[9])
     pend = sorted(sigs)
@@ -1131,6 +1132,9 @@ def dup_bins(nb):
 
 @judge_for("C02", "vocab")
 def j_c02_vocab(cfg):
+    # a step-size or note-value list with repeated entries is a misconfiguration (valid_cfg requires duplicate-free lists)
+    if any(l and len(set(l)) != len(l) for l in (cfg[3], cfg[4])):
+        return None
     t = ops.mk_tok(cfg)
     d = t.dictionary
     v = []
